@@ -6,11 +6,11 @@ into mp::Problem, and .sol -> NLSolver::ReadSolution, compared line by line with
 prediction; (3) property oracle in python, independent of the Lean model, evaluated on what the real
 code returned.
 """
-import os, sys, json, random, subprocess, re, shutil
+import os, sys, json, random, subprocess, re, shutil, glob
 from fractions import Fraction
 from common import *
 
-N_THEOREMS = 22
+N_THEOREMS = 25
 
 # ------------------------------------------------------------------------------------------- cases
 # A case is a dict; numbers are ints k meaning k/8, or 'I' / '-I'.
@@ -25,7 +25,7 @@ def csr(rows):
 
 
 def case_line(c):
-    t = ['C', c['id'], c['api'], c['text'], c['comments'], c['flags'], c['n']]
+    t = ['C', c['id'], c.get('session', 0), c.get('mode', 0), c['api'], c['text'], c['comments'], c['flags'], c['n']]
     t.append(1 if c['types'] is not None else 0)
     if c['types'] is not None:
         t += c['types']
@@ -62,7 +62,7 @@ def case_line(c):
 
 
 def base_case(cid, n, m):
-    return {'id': cid, 'api': 0, 'text': 1, 'comments': 1, 'flags': 1, 'n': n, 'types': None, 'lb': [0] * n, 'ub': [80] * n,
+    return {'id': cid, 'session': 0, 'mode': 0, 'api': 0, 'text': 1, 'comments': 1, 'flags': 1, 'n': n, 'types': None, 'lb': [0] * n, 'ub': [80] * n,
             'sense': 0, 'c0': 0, 'c': [0] * n, 'qfmt': 1, 'Q': [[] for _ in range(n)], 'm': m, 'rlb': ['-I'] * m, 'rub': [80] * m,
             'A': [[] for _ in range(m)], 'ws': [], 'dws': [], 'sufs': [], 'cn': None, 'rn': None, 'objname': 'obj',
             'solfmt': 0, 'solx': [8 * (i + 1) for i in range(n)], 'soly': [8] * m, 'code': 0, 'ssuf': []}
@@ -105,6 +105,20 @@ def corpus_cases():
     c = base_case('cxcdual', 2, 2)
     c.update(api=1, A=[[(0, 8)], [(1, 8)]], ws=[(0, 24)], dws=[(1, 16)])
     out.append(c)
+    # a history: three models with different sizes and permutations through ONE NLSolver / PreprocessData
+    # (C++ API), then the same through the C wrapper: the exported permutation must be that of the last model
+    for tag, api, sess in (('h', 0, 9001), ('hc', 1, 9002)):
+        c = base_case(tag + '1', 3, 1)
+        c.update(session=sess, api=api, types=[1, 0, 1], lb=[0, 0, 0], ub=[40, 80, 8], c=[8, 0, 0], A=[[(0, 8), (1, 8)]],
+                 ssuf=[{'name': 'sstatus', 'kind': 0, 'entries': [(0, 8), (1, 16), (2, 24)]}])
+        out.append(c)
+        c = base_case(tag + '2', 4, 0)
+        c.update(session=sess, api=api, types=[0, 1, 0, 0], lb=[0, 0, 0, 0], ub=[40, 8, 80, 80], c=[0, 0, 16, 0],
+                 Q=[[], [], [], [(3, 16)]], c0=8, solx=[8, 16, 24, 32], ssuf=[{'name': 'sstatus', 'kind': 0, 'entries': [(0, 8), (3, 16)]}])
+        out.append(c)
+        c = base_case(tag + '3', 2, 1)
+        c.update(session=sess, api=api, types=[1, 0], lb=[0, 0], ub=[40, 80], c=[8, 16], A=[[(1, 8)]], solx=[24, 40])
+        out.append(c)
     # healthy QP: diagonal Hessian on three columns
     c = base_case('okdiag', 4, 1)
     c.update(types=[1, 0, 1, 1], lb=[0, -8, 0, 0], ub=[8, 8, 8, 24], Q=[[(0, 16)], [(1, 8)], [], [(3, 24)]], c=[8, 0, -8, 0], A=[[(0, 8), (2, 16)]],
@@ -280,7 +294,16 @@ def gen_case(rng, cid, tier, hist):
         idx = sorted(rng.sample(range(size), rng.randint(1, size)))
         ss.append({'name': name, 'kind': kind, 'entries': [(i, rng.choice(VALS) if kind & 4 else 8 * rng.randint(1, 6)) for i in idx]})
     c['ssuf'] = ss
-    for key, val in (('qmode', qmode), ('types', tmode), ('n', n), ('m', m), ('api', 'c' if c['api'] else 'c++'),
+    k = rng.random()
+    # Solve() spawns the fake solver through std::system: fewer of them in the quick tier
+    c['mode'] = (0 if k < 0.8 else 1 if k < 0.94 else 2) if tier == 'thorough' else (0 if k < 0.92 else 1 if k < 0.98 else 2)
+    if c['ssuf'] and rng.random() < 0.06:
+        sfx = rng.choice(c['ssuf'])
+        size = n if sfx['kind'] % 4 == 0 else m if sfx['kind'] % 4 == 1 else 1
+        sfx['entries'] = sfx['entries'] + [(size + rng.randint(0, 2), 8)]
+        c['solfmt'] = 0
+        h = hist.setdefault('sol_suffix_bad_index', {}); h['yes'] = h.get('yes', 0) + 1
+    for key, val in (('mode', ['LoadModel+ReadSolution', 'Solve(fake solver)', 'Solve(auto stub)'][c['mode']]), ('qmode', qmode), ('types', tmode), ('n', n), ('m', m), ('api', 'c' if c['api'] else 'c++'),
                      ('format', 'text' if c['text'] else 'binary'), ('solfmt', 'mp::WriteSolFile' if c['solfmt'] == 2 else 'own-text')):
         h = hist.setdefault(key, {})
         h[str(val)] = h.get(str(val), 0) + 1
@@ -373,6 +396,9 @@ def oracle(c, lines):
         return L[k][0] if k in L else None
     perm = [int(x) for x in one('perm')[2:]]
     inv = [int(x) for x in one('inv')[2:]]
+    if c.get('session') and (len(perm) != n or len(inv) != n):
+        bad.append(('history:exported-permutation-size', 'after a second model through the same PreprocessData the exported permutation has %d/%d entries for %d columns: %s / %s' % (len(perm), len(inv), n, perm, inv)))
+        return bad
     if sorted(perm) != list(range(n)) or len(inv) != n or any(inv[perm[j]] != j for j in range(n)):
         bad.append(('perm:not-a-bijection', 'reported permutation %s / inverse %s' % (perm, inv)))
         return bad
@@ -548,7 +574,16 @@ def oracle(c, lines):
     if int(one('sol code')[3]) != c['code']:
         bad.append(('sol:code', one('sol code')[3]))
     got = {(p[3], int(p[4]) & 3): p for p in L.get('sol suf', [])}
+    stopped = False
     for s in c['ssuf']:
+        size = n if s['kind'] % 4 == 0 else m if s['kind'] % 4 == 1 else 1
+        if any(i >= size for (i, _) in s['entries']):
+            stopped = True       # a suffix with an out-of-range index must not be delivered; the reader stops there
+        if stopped:
+            if (s['name'], s['kind'] & 3) in got:
+                bad.append(('sol:bad-suffix-delivered', 'suffix %s (entries %s, %d items) was delivered although the file is rejected from there on' % (s['name'], s['entries'], size)))
+                got.pop((s['name'], s['kind'] & 3))
+            continue
         p = got.pop((s['name'], s['kind'] & 3), None)
         if p is None:
             bad.append(('sol:suffix-lost', s['name'])); continue
@@ -575,11 +610,247 @@ def oracle(c, lines):
             val += sum(v / 2 * x[i] * x[col] for (i, col, v) in qent)
             if fr(so[3]) != val:
                 bad.append(('sol:objective-value', 'recomputed objective %s, exact value at the returned point %s' % (fr(so[3]), val)))
+    se = one('sol err')
+    anybad = any(i >= (n if s_['kind'] % 4 == 0 else m if s_['kind'] % 4 == 1 else 1) for s_ in c['ssuf'] for (i, _) in s_['entries'])
+    if se is None or (se[3] == '1') != (anybad or c.get('_err_before', False)):
+        bad.append(('sol:error-flag', 'NLSolver error message after reading the solution: %s, solution file has a suffix with an out-of-range index: %s' % (se and se[3], anybad)))
+    gt = one('getters')
+    if gt is None or gt[2] != '1':
+        bad.append(('getters:differ', 'an accessor of NLModel / NLSolver (C++ or C) does not return what was set'))
     sf = one('samefile')
     if sf is not None and sf[2] != '1':
         bad.append(('write:not-deterministic', 'NLModel::WriteNL and NLSolver::LoadModel wrote different files for the same model'))
     return bad
 
+
+
+# ------------------------------------------------------------------------------------------- coverage mode
+ANCHOR_FILES = ['nl-writer2/src/nl-solver.cc', 'nl-writer2/include/mp/nl-model.h', 'nl-writer2/include/mp/nl-solver.h',
+                'nl-writer2/include/mp/nl-solver.hpp', 'nl-writer2/src/nl-model-c.cc', 'nl-writer2/src/nl-solver-c.cc',
+                'include/mp/nl-reader.h']
+# functions named in anchors.mechanism / anchors.state (+ the reader functions the model mirrors)
+MECH_FUNCS = ['FillNonlinearVars', 'PermuteVars', 'FillObjNonzeros', 'FillColSizes', 'FillHeader', 'ExportPreproData',
+              'FeedObjGradient', 'FeedObjExpression', 'FeedVarBounds', 'FeedConBounds', 'FeedLinearConExpr', 'FeedColumnSizes',
+              'FeedInitialGuesses', 'FeedInitialDualGuesses', 'FeedSuffixes', 'FeedRowAndObjNames', 'FeedColNames',
+              'ComputeObjValue', 'OnPrimalSolution', 'OnDualSolution', 'OnSuffix', 'OnIntSuffix', 'OnDblSuffix', 'NItemsMax',
+              'LoadModel', 'ReadSolution', 'WriteNL', 'AddVariables', 'ReadNumArgs', 'AddSuffix', 'SufSize',
+              'NLW2_SetDualWarmstart_C', 'NLW2_SetWarmstart_C', 'NLW2_AddSuffix_C', 'NLW2_WrapNLSOL_Solution_C', 'NLW2_ReadSolution_C',
+              'NLW2_LoadNLModel_C', 'NLW2_SolveNLModel_C', 'NLW2_ComputeObjValue_C']
+
+
+def parse_gcov(path):
+    """-> (lines {no: count or None(not executable)}, branches {no: [taken counts]} without exception edges (template
+    instantiations / several TUs summed element-wise), funcs [(first line, demangled name, calls)])"""
+    lines, occ, funcs = {}, {}, []
+    cur = None
+    curlist = None
+    pending_funcs = []
+    for raw in open(path, errors='replace'):
+        m = re.match(r'^\s*([0-9]+\*?|#####|=====|-):\s*([0-9]+):(.*)$', raw)
+        if m:
+            no = int(m.group(2))
+            if no == 0:
+                continue
+            cur = no
+            if no not in lines:
+                c = m.group(1)
+                lines[no] = None if c == '-' else 0 if c in ('#####', '=====') else int(c.rstrip('*'))
+            curlist = []
+            occ.setdefault(no, []).append(curlist)
+            for nm, calls in pending_funcs:
+                funcs.append((no, nm, calls))
+            pending_funcs = []
+            continue
+        m = re.match(r'^function (.*) called (\d+) returned', raw)
+        if m:
+            pending_funcs.append((m.group(1), int(m.group(2))))
+            continue
+        m = re.match(r'^branch\s+\d+ (taken (\d+)|never executed)(.*)$', raw)
+        if m and curlist is not None and '(throw)' not in m.group(3):
+            curlist.append(int(m.group(2)) if m.group(2) else 0)
+    branches = {}
+    for no, lists in occ.items():
+        lists = [l for l in lists if l]
+        if not lists:
+            continue
+        L = max(len(l) for l in lists)
+        same = [l for l in lists if len(l) == L]
+        branches[no] = [sum(l[i] for l in same) for i in range(L)]
+    agg = {}
+    for no, nm, calls in funcs:
+        agg[(no, nm)] = agg.get((no, nm), 0) + calls
+    return lines, branches, [(no, nm, calls) for (no, nm), calls in agg.items()]
+
+
+# for these files only the functions that belong to the easy API (or that the model mirrors) count for the totals
+COUNTED_ONLY = {
+    'include/mp/nl-reader.h': ['AddVariables', 'DoAddVars', 'ReadNumArgs'],
+    'nl-writer2/src/nl-solver-c.cc': ['NLW2_MakeNLSolver_C', 'NLW2_DestroyNLSolver_C', 'NLW2_SetFileStub_C', 'NLW2_GetFileStub_C', 'NLW2_SetNLOptions_C',
+                                      'NLW2_GetNLOptions_C', 'NLW2_GetErrorMessage_C', 'NLW2_WrapNLSOL_Solution_C', 'NLW2_SolveNLModel_C',
+                                      'NLW2_LoadNLModel_C', 'NLW2_RunSolver_C', 'NLW2_ReadSolution_C'],
+}
+
+
+def _calls_by_name(funcs):
+    d = {}
+    for _, nm, calls in funcs:
+        k = nm.split('(')[0][-80:]
+        d[k] = d.get(k, 0) + calls
+    return d
+
+
+def coverage(ck, cases, label):
+    """VERIF_COVERAGE=1: instrumented build of the harness + nl-writer2, quick-tier stream, gcov on the anchored files"""
+    cdir = os.path.join(BUILD, 'c08cov')
+    shutil.rmtree(cdir, ignore_errors=True)
+    os.makedirs(cdir)
+    inc = ['-I' + os.path.join(REPO, 'include'), '-I' + os.path.join(REPO, 'src'), '-I' + os.path.join(REPO, 'nl-writer2', 'include'),
+           '-I' + os.path.join(VERIF, 'harness')]
+    srcs = [os.path.join(REPO, s_) for s_ in ck.LIBNLW2_SRC] + [os.path.join(VERIF, 'harness', 'h_easy.cc')]
+    from concurrent.futures import ThreadPoolExecutor
+
+    def comp(src):
+        o = os.path.join(cdir, os.path.basename(src).replace('.', '_') + '.o')
+        rc, out, err = sh(['g++', '-std=c++17', '-w', '-O0', '-g', '--coverage', '-DNDEBUG', '-DAMPL_MP_VERIF'] + inc + ['-c', src, '-o', o], timeout=3000)
+        if rc != 0:
+            raise RuntimeError(err[-2000:])
+        return o
+    with ThreadPoolExecutor(max_workers=8) as ex:
+        objs = list(ex.map(comp, srcs))
+    exe = os.path.join(cdir, 'h_easy_cov')
+    rc, out, err = sh(['g++', '--coverage'] + objs + ck.libmp_objects(flags=('-O1', '-g', '-DNDEBUG')) + ['-o', exe, '-ldl'], timeout=3000)
+    if rc != 0:
+        raise RuntimeError(err[-2000:])
+    cf, out, rc, err = run_harness(exe, cases, 'cov')
+    gcdas = sorted(glob.glob(os.path.join(cdir, '*.gcda')))
+    sh(['gcov-12', '-b', '-c', '-m'] + gcdas, cwd=cdir, timeout=3000)
+    res = {'label': label, 'cases': len(cases), 'harness_exit': rc, 'files': {}}
+    md = []
+    tot_l = tot_lc = tot_b = tot_bc = 0
+    for af in ANCHOR_FILES:
+        g = os.path.join(cdir, os.path.basename(af) + '.gcov')
+        if not os.path.exists(g):
+            res['files'][af] = {'note': 'no executable code instantiated / no gcov output'}
+            md.append('### %s\nno gcov output (no executable line instantiated in the instrumented TUs)\n' % af)
+            continue
+        lines, branches, funcs = parse_gcov(g)
+        src = open(os.path.join(REPO, af), errors='replace').read().split('\n')
+        ex_l = [n for n, c_ in lines.items() if c_ is not None]
+        cov_l = [n for n in ex_l if lines[n] > 0]
+        nb = sum(len(v) for v in branches.values()); nbc = sum(1 for v in branches.values() for t in v if t > 0)
+        # function extents: from its first line to the line before the next function
+        fstarts = sorted(set(no for no, _, _ in funcs))
+        mech = {}
+        for no, nm, calls in funcs:
+            short = next((f for f in MECH_FUNCS if re.search(r'\b%s\b' % re.escape(f), nm.split('(')[0])), None)
+            if not short:
+                continue
+            nxt = next((x for x in fstarts if x > no), max(lines) + 1)
+            rng_ = [n for n in ex_l if no <= n < nxt]
+            e = mech.setdefault((short, no), {'calls': 0, 'lines': len(rng_), 'uncovered_lines': [], 'branches': 0, 'branches_taken': 0, 'untaken': []})
+            e['calls'] += calls
+            e['insts'] = e.get('insts', 0) + 1
+            e['uncovered_lines'] = [n for n in rng_ if lines[n] == 0]
+            e['branches'] = sum(len(branches.get(n, [])) for n in rng_)
+            e['branches_taken'] = sum(1 for n in rng_ for t in branches.get(n, []) if t > 0)
+            e['untaken'] = [n for n in rng_ if any(t == 0 for t in branches.get(n, [])) and lines[n] > 0]
+        if af in COUNTED_ONLY:
+            sel = set()
+            for no, nm, calls in funcs:
+                if any(re.search(r'\b%s\b' % re.escape(f), nm.split('(')[0]) for f in COUNTED_ONLY[af]):
+                    nxt = next((x for x in fstarts if x > no), max(lines) + 1)
+                    sel.update(n for n in ex_l if no <= n < nxt)
+            fl, flc = len(sel), sum(1 for n in sel if lines[n] > 0)
+            fb = sum(len(branches.get(n, [])) for n in sel); fbc = sum(1 for n in sel for t in branches.get(n, []) if t > 0)
+        else:
+            fl, flc, fb, fbc = len(ex_l), len(cov_l), nb, nbc
+        tot_l += fl; tot_lc += flc; tot_b += fb; tot_bc += fbc
+        res['files'][af] = {'lines': len(ex_l), 'lines_covered': len(cov_l), 'branches': nb, 'branches_taken': nbc,
+                            'counted_lines': fl, 'counted_lines_covered': flc,
+                            'uncalled_functions': sorted(k_ for k_, v_ in _calls_by_name(funcs).items() if v_ == 0)[:60]}
+        md.append('### %s\nlines %d/%d (%.1f%%), branches %d/%d (%.1f%%)%s\n' % (af, len(cov_l), len(ex_l), 100.0 * len(cov_l) / max(1, len(ex_l)), nbc, nb, 100.0 * nbc / max(1, nb),
+                  ' — totals count only the easy-API / mirrored functions of this file (%s): lines %d/%d, branches %d/%d' % (', '.join(COUNTED_ONLY[af]), flc, fl, fbc, fb) if af in COUNTED_ONLY else ''))
+        md.append('| mechanism function (line) | calls | uncovered lines | branches taken | lines with an untaken branch |\n|---|---|---|---|---|')
+        for (short, no), e in sorted(mech.items(), key=lambda kv: kv[0][1]):
+            md.append('| %s (%d) | %d | %s | %d/%d | %s |' % (short, no, e['calls'], e['uncovered_lines'] or '-', e['branches_taken'], e['branches'], e['untaken'] or '-'))
+            for n in e['uncovered_lines'][:12]:
+                md.append('|  | | `%d: %s` | | |' % (n, src[n - 1].strip()[:90].replace('|', '\\|')))
+        unc = res['files'][af]['uncalled_functions']
+        if unc and af not in COUNTED_ONLY:
+            md.append('\nnever-called functions in this file: ' + ', '.join('`%s`' % u for u in unc[:40]))
+        md.append('')
+    res['anchor_line_cov'] = round(100.0 * tot_lc / max(1, tot_l), 1)
+    res['anchor_branch_cov'] = round(100.0 * tot_bc / max(1, tot_b), 1)
+    return res, '\n'.join(md)
+
+
+def model_arms(cases):
+    """which `if` / `match` arms of the Lean model functions (Model.lean) the correspondence stream takes, by the input
+    condition that selects the arm (the driver evaluates exactly these functions on every case)"""
+    A = {}
+
+    def hit(k, cond=True):
+        A.setdefault(k, 0)
+        if cond:
+            A[k] += 1
+    prev_n = {}
+    for c in cases:
+        n, m = c['n'], c['m']
+        qent = [(i, col, v) for i, row in enumerate(c['Q']) for (col, v) in row]
+        nl = set([i for i, _, _ in qent] + [col for _, col, _ in qent])
+        hit('isInt: types = none', c['types'] is None); hit('isInt: types = some', c['types'] is not None)
+        for j in range(n):
+            it = bool(c['types'] and c['types'][j]); b = c['lb'][j] == 0 and c['ub'][j] == 8
+            k = (-2 if j in nl else 0) + ((2 if (j not in nl and not b) else 1) if it else 0)
+            hit('key = %d' % k)
+            hit('isBin01 true on an integer column', it and b); hit('isBin01 false on an integer column', it and not b)
+            for bn, nm in ((c['lb'][j], 'lb'), (c['ub'][j], 'ub')):
+                hit('Bnd.%s %s' % ('ninf' if bn == '-I' else 'pinf' if bn == 'I' else 'fin', nm))
+            hit('decodeIsInt: linear integer block (first arm)', it and j not in nl)
+            hit('decodeIsInt: nonlinear integer block', it and j in nl)
+            hit('decodeIsInt: continuous (both tests false)', not it)
+        hit('qEntries / feedObjExpr: nnz = 0', not qent); hit('feedObjExpr: nnz > 0', bool(qent))
+        hit('feedObjExpr: c0 != 0 inside the sum', bool(qent) and c['c0'] != 0); hit('feedObjExpr: c0 = 0 inside the sum', bool(qent) and c['c0'] == 0)
+        hit('numPad > 0 (sum padded to 3 arguments)', bool(qent) and len(qent) + (1 if c['c0'] else 0) < 3)
+        hit('driver: constant objective printed as nil (c0 = 0, nnz = 0)', not qent and c['c0'] == 0)
+        hit('cCoef: c = none', c['c'] is None); hit('cCoef: c = some', c['c'] is not None)
+        hit('walkDesc: empty Hessian row', any(not r for r in c['Q']) and bool(qent)); hit('walkDesc: nonempty row', bool(qent))
+        hit('supp false for some column (sparse gradient)', any((c['c'] is None or c['c'][j] == 0) and j not in nl for j in range(n)))
+        hit('feedLinearConExpr: last row (end = nnz)', m > 0); hit('feedLinearConExpr: inner row (end = start[i+1])', m > 1)
+        hit('feedLinearConExpr: empty row', any(not r for r in c['A']))
+        hit('feedInitialGuesses nonempty', bool(c['ws'])); hit('feedInitialDualGuesses nonempty', bool(c['dws']))
+        seen = set()
+        for s_ in c['sufs']:
+            key_ = (s_['name'], s_['kind'] & 3)
+            hit('sufSet: duplicate (name, kind&3) dropped', key_ in seen); seen.add(key_)
+            hit('feedSuffix: variable suffix (through vperm)', s_['kind'] % 4 == 0); hit('feedSuffix: non-variable suffix', s_['kind'] % 4 != 0)
+            hit('feedSuffix: double suffix', bool(s_['kind'] & 4)); hit('feedSuffix: integer suffix (roundHA)', not s_['kind'] & 4)
+            hit('roundHA: negative argument', not s_['kind'] & 4 and any(v < 0 for v in s_['values']))
+            hit('roundHA: non-integral argument', not s_['kind'] & 4 and any(v % 8 for v in s_['values']))
+            hit('feedSuffix: all values zero (suffix not written)', all(v == 0 for v in s_['values']))
+            for kk in range(4):
+                hit('sufSize / nmax arm kind%%4 = %d' % kk, s_['kind'] % 4 == kk)
+        hit('feedColNames none', c['cn'] is None); hit('feedColNames some', c['cn'] is not None)
+        hit('feedRowObjNames none', c['rn'] is None); hit('feedRowObjNames some', c['rn'] is not None)
+        hit('onPrimalPd: no primal values', not c['solx']); hit('onPrimalPd: values', bool(c['solx']))
+        hit('onPrimalPd: fewer values than columns', 0 < len(c['solx']) < n)
+        for s_ in c['ssuf']:
+            size = n if s_['kind'] % 4 == 0 else m if s_['kind'] % 4 == 1 else 1
+            hit('onSuffixPd: variable suffix (through vperm_inv)', s_['kind'] % 4 == 0); hit('onSuffixPd: non-variable suffix', s_['kind'] % 4 != 0)
+            hit('solSuffixOk false (index out of range)', any(i >= size for (i, _) in s_['entries']))
+        hit('stickyErr: error flag already set by an earlier model of the session', c.get('_err_before', False))
+        hit('computeObjValue evaluated (full primal vector returned)', len(c['solx']) == n)
+        hit('api = C wrapper', c['api'] == 1); hit('api = C++', c['api'] == 0)
+        if c.get('session'):
+            pn = prev_n.get(c['session'])
+            hit('exportPrepro: first model of a session (resize pads from empty)', pn is None)
+            hit('exportPrepro: previous model had more columns (resize truncates)', pn is not None and pn > n)
+            hit('exportPrepro: previous model had fewer columns (resize pads)', pn is not None and pn < n)
+            hit('exportPrepro: previous model had the same size', pn is not None and pn == n)
+            prev_n[c['session']] = n
+        else:
+            hit('exportPrepro: fresh PreprocessData (session 0)')
+    return A
 
 # ------------------------------------------------------------------------------------------- running
 def group(text):
@@ -612,6 +883,7 @@ def run_harness(exe, cases, tag):
     os.makedirs(wd, exist_ok=True)
     cf = os.path.join(wd, 'cases.txt')
     with open(cf, 'w') as f:
+        f.write('P\n')      # failure-path probes (no model data)
         for c in cases:
             f.write(case_line(c) + '\n')
     p = subprocess.run([exe, cf, os.path.join(wd, 'w')], capture_output=True, text=True, timeout=3000)
@@ -633,15 +905,64 @@ def run(ck):
     cases = corpus_cases()
     ncorp = len(cases)
     ngen = 40000 if ck.tier == 'thorough' else 4000
-    for i in range(ngen):
-        cases.append(gen_case(rng, 'g%d' % i, ck.tier, hist))
+    i = 0
+    nsess = 0
+    while i < ngen:
+        if rng.random() < 0.12:
+            # a history: 2-4 models through one NLSolver (and one PreprocessData), solution read after each
+            nsess += 1
+            k = rng.choice([2, 2, 3, 4])
+            api = 1 if rng.random() < 0.3 else 0
+            for _ in range(k):
+                c = gen_case(rng, 'g%d' % i, ck.tier, hist)
+                c['session'] = nsess
+                if c['mode'] == 2:
+                    c['mode'] = 1      # the automatic stub belongs to a fresh solver
+                if rng.random() < 0.8:
+                    c['api'] = api
+                    if api == 1 and c['dws']:
+                        c['dws'] = [(r_, v_) for (r_, v_) in c['dws'] if r_ < c['m']]
+                cases.append(c); i += 1
+            h = hist.setdefault('history_length', {}); h[str(k)] = h.get(str(k), 0) + 1
+        else:
+            cases.append(gen_case(rng, 'g%d' % i, ck.tier, hist)); i += 1
     byid = {c['id']: c for c in cases}
+    covdir = os.path.join(VERIF, 'design_notes', 'coverage')
+    if os.environ.get('VERIF_COVERAGE'):
+        os.makedirs(covdir, exist_ok=True)
+        res, md = coverage(ck, cases, os.environ.get('VERIF_COVERAGE_LABEL', 'after'))
+        json.dump(res, open(os.path.join(covdir, 'C08.json'), 'w'), indent=1)
+        open(os.path.join(covdir, 'C08.gcov.md'), 'w').write('# C08 — gcov tables of the last VERIF_COVERAGE run (%s, %d cases, seed %d)\n\nanchor line coverage %.1f%%, branch coverage %.1f%%\n\n%s' %
+                                                                (ck.tier, len(cases), ck.seed, res['anchor_line_cov'], res['anchor_branch_cov'], md))
+        ck.log('coverage: anchored lines %.1f%%, branches %.1f%%' % (res['anchor_line_cov'], res['anchor_branch_cov']))
+    try:
+        cj = json.load(open(os.path.join(covdir, 'C08.json')))
+        ck.cov['anchor_line_cov'] = cj['anchor_line_cov']
+        ck.cov['anchor_branch_cov'] = cj['anchor_branch_cov']
+        ck.cov['anchor_cov_note'] = 'measured in the last VERIF_COVERAGE=1 run (gcov -b on anchors.files; nl-reader.h counted only for the reader functions the model mirrors); see design_notes/coverage/C08.md'
+    except Exception:
+        pass
+    pos_of = {c['id']: k_ for k_, c in enumerate(cases)}
+    sticky = {}     # NLSolver::err_msg_ is never cleared: per solver object (session, api)
+    for c in cases:
+        if c.get('session'):
+            key_ = (c['session'], c['api'])
+            c['_err_before'] = sticky.get(key_, False)
+            badnow = any(i >= (c['n'] if s_['kind'] % 4 == 0 else c['m'] if s_['kind'] % 4 == 1 else 1) for s_ in c['ssuf'] for (i, _) in s_['entries'])
+            sticky[key_] = sticky.get(key_, False) or badnow
+
+    def replay_lines(c):
+        """the case line, preceded by the earlier cases of its session (a history is replayed as a whole)"""
+        if not c.get('session'):
+            return case_line(c)
+        return '\n'.join(case_line(x) for x in cases[:pos_of[c['id']] + 1] if x.get('session') == c['session'])
     exe = build_harness(ck)
     drv = ck.driver('drv_c08')
     cf, impl, rc, err = run_harness(exe, cases, 'main')
     with open(cf) as f:
         mp_ = subprocess.run([drv], stdin=f, capture_output=True, text=True, timeout=3000)
     G, order = group(impl)
+    order = [x for x in order if x != 'probe']
     M, _ = group(mp_.stdout)
     if rc != 0 or len(order) != len(cases) or any(not G[c][-1].endswith(' end') and not any(x.endswith(' end') for x in G[c]) for c in order):
         done = set(c for c in order if any(x.endswith(' end') for x in G[c]))
@@ -649,6 +970,14 @@ def run(ck):
         ck.add_violation('harness:crash', 'the real code crashed / stopped on case %s (exit %s): %s' % (first and first['id'], rc, err[-400:]),
                          {'case': first and case_line(first), 'stderr': err, 'how': 'harness/h_easy.cc <file with this case line> <dir>'})
     n_lines = n_cases_agree = n_clean = 0
+    PROBE = ['probe cpp presol code -2 nx 0 err 1', 'probe cpp badstub load 0 werr 1 err 1 code -2 nx 0 perm 2',
+             'probe c presol code -2 nx 0 err 1', 'probe c badstub load 0 werr 1 err 1 code -2 nx 0 perm 2']
+    if G.get('probe') != PROBE:
+        ck.add_violation('probe:failure-path', 'ReadSolution before a model is loaded / LoadModel with an unwritable stub must report failure (no solution, error message): got %s' % (G.get('probe'),),
+                         {'case': 'P', 'observed': G.get('probe'), 'expected': PROBE, 'how': 'harness/h_easy.cc with a file containing the single line P'})
+    if M.get('probe') != G.get('probe'):
+        ck.add_violation('corr:probe', 'Lean model and real code disagree on the failure probes: %s / %s' % (G.get('probe'), M.get('probe')),
+                         {'case': 'P', 'impl': G.get('probe'), 'model': M.get('probe')}, found_input=G.get('probe') != PROBE)
     sigcount = {}
     nontrivial = set()
     for c in cases:
@@ -662,7 +991,7 @@ def run(ck):
             sigcount[sig] = sigcount.get(sig, 0) + 1
         for sig, what in obad:
             ck.add_violation(sig, '%s [case %s]' % (what, cid),
-                             {'case': case_line(c), 'case_id': cid, 'observed': G[cid][:40], 'expected': what,
+                             {'case': replay_lines(c), 'case_id': cid, 'observed': G[cid][:40], 'expected': what,
                               'how': './check C08 --replay <this file>  (runs harness/h_easy.cc on the case line against $MP_REPO)'})
         ml = M.get(cid, [])
         n_lines += len(G[cid])
@@ -674,7 +1003,7 @@ def run(ck):
             # a disagreement with a failing oracle on a signature that is not a known finding is already reported above
             ck.add_violation('corr:%s' % kind, 'Lean model and real code disagree on case %s: real "%s" / model "%s"%s' %
                              (cid, diff[0][:300], diff[1][:300], '' if obad else ' (property oracle is satisfied on this case: model drift or a change outside the oracle)'),
-                             {'case': case_line(c), 'case_id': cid, 'impl_line': diff[0], 'model_line': diff[1], 'correspondence': 'drv_c08 vs harness/h_easy.cc'},
+                             {'case': replay_lines(c), 'case_id': cid, 'impl_line': diff[0], 'model_line': diff[1], 'correspondence': 'drv_c08 vs harness/h_easy.cc'},
                              found_input=bool(obad))
         nontrivial.add((c['n'], c['m'], tuple(len(r) for r in c['Q']), c['api'], c['text'], len(c['sufs']), len(c['ws'])))
         if len(ck.cov['samples']) < 6 and cid.startswith('g'):
@@ -719,6 +1048,9 @@ def run(ck):
     ck.cov['oracle_signatures_seen'] = sigcount
     ck.cov['cases_where_oracle_is_fully_satisfied'] = n_clean
     ck.cov['generator_histogram'] = hist
+    arms = model_arms(cases)
+    ck.cov['model_arms_exercised'] = arms
+    ck.cov['model_arms_never_taken'] = sorted(k_ for k_, v_ in arms.items() if v_ == 0)
     ck.cov['corpus_cases'] = ncorp
     ck.cov['exhaustive'] = False
     ck.log('cases=%d identical=%d lines=%d property-clean=%d oracle signatures (cases)=%s' % (len(order), n_cases_agree, n_lines, n_clean, sigcount))
